@@ -240,7 +240,7 @@ type netSim struct {
 	firstBlockAt       time.Duration
 	clientSeq          uint64
 	onChainResubmitted map[util.Uint256]bool
-	conflictVictims    map[util.Uint256]util.Uint256 // tx named by a Conflicts attribute -> the naming transaction
+	conflictVictims    map[util.Uint256][]util.Uint256 // tx named by Conflicts attributes -> the naming transactions
 }
 
 func (s *netSim) now() time.Duration { return time.Since(s.start) }
@@ -470,10 +470,21 @@ func (s *netSim) submitTx(v *vnode, tx *transaction.Transaction) {
 	if _, hgt, gerr := v.n.BC.GetTransaction(tx.Hash()); gerr == nil && hgt != ^uint32(0) {
 		onOwnChain = true
 	}
+	// a namer counts when it is on this node's chain, still well inside the traceable window, and shares a signer
 	namerOnOwnChain := false
-	if namer, ok := s.conflictVictims[tx.Hash()]; ok {
-		if _, hgt, gerr := v.n.BC.GetTransaction(namer); gerr == nil && hgt != ^uint32(0) {
-			namerOnOwnChain = true
+	staleNamer := false
+	for _, namer := range s.conflictVictims[tx.Hash()] {
+		ntx, hgt, gerr := v.n.BC.GetTransaction(namer)
+		if gerr == nil && hgt != ^uint32(0) && hgt+v.n.BC.GetMaxTraceableBlocks() <= v.n.BC.BlockHeight() {
+			staleNamer = true
+		}
+		if gerr != nil || hgt == ^uint32(0) || hgt+v.n.BC.GetMaxTraceableBlocks() <= v.n.BC.BlockHeight()+1 {
+			continue
+		}
+		for _, sg := range ntx.Signers {
+			if tx.HasSigner(sg.Account) {
+				namerOnOwnChain = true
+			}
 		}
 	}
 	if pv := sim.Recover(func() { err = v.n.BC.PoolTx(tx) }); pv != nil {
@@ -484,6 +495,9 @@ func (s *netSim) submitTx(v *vnode, tx *transaction.Transaction) {
 	// before the transaction itself is handed to the service: with both channels ready the loop's select would
 	// choose by the runtime's random number, which no plan controls
 	sim.Wait()
+	if namerOnOwnChain && staleNamer {
+		s.r.out.Probes["conflict_victim_with_untraceable_and_traceable_namer"]++
+	}
 	if namerOnOwnChain {
 		s.r.out.Probes["conflict_victim_submitted_after_namer_on_chain"]++
 		if err == nil {
@@ -638,7 +652,7 @@ func (r *run) runNet() {
 		sim.Harnessf("network plan missing")
 	}
 	s := &netSim{r: r, np: np, canon: map[uint32]util.Uint256{}, croot: map[uint32]string{}, defective: map[util.Uint256]string{}, defectFees: map[util.Uint256][2]int64{},
-		goodAt: map[util.Uint256]time.Duration{}, seenTx: map[util.Uint256][]byte{}, onChainResubmitted: map[util.Uint256]bool{}, conflictVictims: map[util.Uint256]util.Uint256{}}
+		goodAt: map[util.Uint256]time.Duration{}, seenTx: map[util.Uint256][]byte{}, onChainResubmitted: map[util.Uint256]bool{}, conflictVictims: map[util.Uint256][]util.Uint256{}}
 	// entropy
 	old := crand.Reader
 	dr := &detRand{}
